@@ -67,6 +67,14 @@ def _addconn_order(fl):
     if [f for f in fl if f["kind"] == "unlock" and f["expr"] == "c.mux" and k < f["line"] < p and "return" not in
             [g["kind"] for g in fl if f["line"] < g["line"] < p]]:
         return ["addConn: c.mux is released between the closed test (%d) and c.p = p (%d)" % (k, p)]
+    # second critical section, after the open notification: closed test, table store and registration under c.mux
+    tw = [f for f in fl if f["kind"] == "access" and f["expr"] == "recv.g.connsUnix" and f.get("write")]
+    if [f["line"] for f in tw if "c.mux" not in f["held"]]:
+        return ["addConn: connsUnix[fd] written without c.mux held (a conn closed by its open callback must not touch the entry)"]
+    if not [f for f in fl if f["kind"] == "access" and f["expr"] == "c.closed" and "c.mux" in f["held"] and o < f["line"] < t]:
+        return ["addConn: no closed test under c.mux between the open notification (%d) and the table store (%d)" % (o, t)]
+    if [f for f in fl if f["kind"] in ("unlock",) and f["expr"] == "c.mux" and t <= f["line"] <= r]:
+        return ["addConn: c.mux released between the table store (%d) and the registration (%d)" % (t, r)]
     bad = [f["line"] for f in fl if f["kind"] == "access" and f["expr"] == "c.closed" and "c.mux" not in f["held"]]
     if bad:
         return ["addConn: c.closed read without c.mux at line %d" % bad[0]]
